@@ -138,6 +138,38 @@ pub fn reference(cfg: &Config, defs: &[Def], gv: &GraphView, h: &BTreeMap<String
     RefOut { valid, exec, live, ambiguous, pred }
 }
 
+/// The literal "up to date" definition (C03) for job j, evaluated on the ACTUAL run: own record and
+/// input list unchanged, every direct upstream's current output cmp-equal to what j's records say it
+/// consumed. None = cannot be decided (ambiguous records, or an upstream has no current output).
+pub fn inputs_unchanged(cfg: &Config, out: &EvalOut, j: usize) -> Option<bool> {
+    let gv = &out.gv;
+    let job = &gv.jobs[j];
+    let h_in = &out.h_in;
+    if !h_in.contains_key(&job.id) {
+        return Some(false);
+    }
+    if h_in.get(&format!("{}!!!", job.id)) != Some(&gv.names(cfg, j)) {
+        return Some(false);
+    }
+    for (u, consumed) in job.ups.iter() {
+        let c = match out.disp[*u] {
+            Disp::ExecOk => out.ok.get(u).cloned(),
+            Disp::Skipped => h_in.get(&gv.jobs[*u].id).cloned(),
+            _ => None,
+        }?;
+        match recorded_input(cfg, gv, h_in, *u, j, consumed) {
+            Err(()) => return None,
+            Ok(None) => return Some(false),
+            Ok(Some(rec)) => match altered(cfg, &gv.jobs[*u].parts, Some(&job.consumed_names), &rec, &c) {
+                Ok(false) => {}
+                Ok(true) => return Some(false),
+                Err(_) => return None,
+            },
+        }
+    }
+    Some(true)
+}
+
 pub struct OracleCtx<'a> {
     pub cfg: &'a Config,
     pub defs: &'a [Def],
@@ -405,6 +437,24 @@ pub fn check_eval(ctx: &OracleCtx, out: &EvalOut, plan: &EvalPlan, probes: &mut 
 
         // C18
         check_c18(gv, h_in, h_out, &mut vio, probes);
+    }
+
+    // ------------------------------------------------------------------ C16 / C06: was a contract error justified?
+    for e in out.contract_err.iter() {
+        // the error is only legitimate for an Ephemeral whose inputs are unchanged (judged from the
+        // records and the actual outputs of this run - not from what the engine thought)
+        if inputs_unchanged(cfg, out, *e) == Some(false) {
+            vio.push(v(
+                "C16",
+                "contract-error-although-inputs-changed",
+                format!("EphemeralChangedOutput raised for {} although its inputs had changed since its recorded execution", gv.jobs[*e].id),
+            ));
+            vio.push(v(
+                "C06",
+                "unjustified-contract-error",
+                "EphemeralChangedOutput for an Ephemeral whose inputs had changed".to_string(),
+            ));
+        }
     }
 
     // ------------------------------------------------------------------ C13 (end)
